@@ -141,6 +141,112 @@ func Witness(name string, v any) {
 }
 
 func Events() []string       { return nil }
+
+// ---- stage 2 (native edition) ----
+//
+// Pass A: Stage2 writes the emitted source, Unmarshal writes a request; every accessor hands
+// out the value recorded for the symbolic path (concretised from the solver model).
+// Pass B (driver): the emitted source is compiled with the real libraries and the
+// concrete documents are decoded; the observed outcomes come back through $ZZ_OBSERVED
+// and override the recorded ones in a second run of the harness.
+
+const (
+	KAbsent = 0
+	KNull   = 1
+	KBool   = 2
+	KNumber = 3
+	KString = 4
+	KArray  = 5
+	KObject = 6
+)
+
+var (
+	nS2, nDoc, nUnm int
+	observed        struct {
+		S2OK   map[string]bool   `json:"s2ok"`
+		S2Err  map[string]string `json:"s2err"`
+		Status map[string]int    `json:"status"`
+		Msg    map[string]string `json:"msg"`
+	}
+)
+
+func outFile(name string) string { return filepath.Join(os.Getenv("ZZ_OUT"), name) }
+
+func Stage2(src string) int { return Stage2As(src, "") }
+
+func Stage2As(src, importPath string) int {
+	h := nS2
+	nS2++
+	_ = os.WriteFile(outFile(fmt.Sprintf("s2_%d.go.txt", h)), []byte(src), 0o644)
+	_ = os.WriteFile(outFile(fmt.Sprintf("s2_%d.path", h)), []byte(importPath), 0o644)
+	return h
+}
+
+func accBool(name string) bool     { return bits(next("acc:"+name)) != 0 }
+func accInt(name string) int64     { return int64(bits(next("acc:" + name))) }
+func accStr(name string) string    { return next("acc:" + name).Str }
+func accF(name string) float64     { return math.Float64frombits(bits(next("acc:" + name))) }
+
+func S2OK(h int) bool {
+	rec := accBool("S2OK")
+	if v, ok := observed.S2OK[strconv.Itoa(h)]; ok {
+		return v
+	}
+	return rec
+}
+func S2Errors(h int) string {
+	rec := accStr("S2Errors")
+	if v, ok := observed.S2Err[strconv.Itoa(h)]; ok {
+		return v
+	}
+	return rec
+}
+func S2FmtStable(h int) bool                 { return accBool("S2FmtStable") }
+func S2Fits(h int) bool                      { return accBool("S2Fits") }
+func S2HasType(h int, typ string) bool       { return accBool("S2HasType") }
+func S2HasMethod(h int, typ, m string) bool  { return accBool("S2HasMethod") }
+func NewDoc() int                            { d := nDoc; nDoc++; return d }
+
+func Unmarshal(h int, typ, format string, doc int) int {
+	k := nUnm
+	nUnm++
+	b, _ := json.Marshal(map[string]interface{}{"h": h, "typ": typ, "format": format, "doc": doc})
+	_ = os.WriteFile(outFile(fmt.Sprintf("unm_%d.json", k)), b, 0o644)
+	return k
+}
+
+func RStatus(r int) int {
+	rec := int(accInt("RStatus"))
+	if v, ok := observed.Status[strconv.Itoa(r)]; ok {
+		return v
+	}
+	return rec
+}
+func RMsg(r int) string {
+	rec := accStr("RMsg")
+	if v, ok := observed.Msg[strconv.Itoa(r)]; ok {
+		return v
+	}
+	return rec
+}
+func RUnchanged(r int) bool                       { return accBool("RUnchanged") }
+func DIs(doc int, path string, kind int) bool     { return accBool("DIs") }
+func DBool(doc int, path string) bool             { return accBool("DBool") }
+func DInt(doc int, path string) int64             { return accInt("DInt") }
+func DIsInt(doc int, path string) bool            { return accBool("DIsInt") }
+func DFloat(doc int, path string) float64         { return accF("DFloat") }
+func DStr(doc int, path string) string            { return accStr("DStr") }
+func DLen(doc int, path string) int               { return int(accInt("DLen")) }
+func DMalformed(doc int) bool                     { return accBool("DMalformed") }
+func RuneLen(s string) int                        { return int(accInt("RuneLen")) }
+func Matches(s, pattern string) bool              { return accBool("Matches") }
+func OGet(r int, path string) any                 { next("acc:OGet"); return nil }
+func OIsNil(r int, path string) bool              { return accBool("OIsNil") }
+func OInt(r int, path string) int64               { return accInt("OInt") }
+func OFloat(r int, path string) float64           { return accF("OFloat") }
+func OStr(r int, path string) string              { return accStr("OStr") }
+func OBool(r int, path string) bool               { return accBool("OBool") }
+func OLen(r int, path string) int                 { return int(accInt("OLen")) }
 func Unreachable(why string) { panic("zzvrt.Unreachable: " + why) }
 
 // RunList executes the replays listed in $ZZ_LIST (lines: idx|Func|drawsfile|outdir).
@@ -178,7 +284,11 @@ func Run(h func()) {
 		fmt.Fprintf(out, "ZZERROR %v\n", err)
 		return
 	}
-	pos = 0
+	pos, nS2, nDoc, nUnm = 0, 0, 0, 0
+	observed.S2OK, observed.S2Err, observed.Status, observed.Msg = nil, nil, nil, nil
+	if ob, err := os.ReadFile(filepath.Join(os.Getenv("ZZ_OUT"), "observed.json")); err == nil {
+		_ = json.Unmarshal(ob, &observed)
+	}
 	defer func() {
 		if p := recover(); p != nil {
 			if _, ok := p.(assumeFailed); ok {
